@@ -220,7 +220,14 @@ fn format_timestamp_function(
     let dt = DateTime::from_timestamp(timestamp as i64, 0)
         .ok_or_else(|| tera::Error::msg("Invalid timestamp"))?
         .with_timezone(&Utc);
-    let formatted = dt.format(chrono_format).to_string();
+    // an invalid strftime directive makes chrono's Display fail, and to_string() would panic
+    let mut formatted = String::new();
+    {
+        use std::fmt::Write;
+        write!(formatted, "{}", dt.format(chrono_format)).map_err(|_| {
+            tera::Error::msg(format!("Invalid timestamp format '{}'", format))
+        })?;
+    }
 
     Ok(Value::String(formatted))
 }
